@@ -62,6 +62,11 @@ class RuntimeV1_0(Runtime):
         if flow_id in self.flow_configs:
             return
 
+        self.flow_configs[flow_id] = self._create_flow_config(flow_id, flow)
+
+    @staticmethod
+    def _create_flow_config(flow_id: str, flow: dict) -> FlowConfig:
+        """Create the configuration of a flow from its parsed form."""
         elements = flow["elements"]
 
         # If we have an element with meta information, we move the relevant properties
@@ -83,7 +88,7 @@ class RuntimeV1_0(Runtime):
             # Finally, remove the meta element
             elements = elements[1:]
 
-        self.flow_configs[flow_id] = FlowConfig(
+        flow_config = FlowConfig(
             id=flow_id,
             elements=elements,
             priority=flow.get("priority", 1.0),
@@ -98,9 +103,7 @@ class RuntimeV1_0(Runtime):
         # to the default ones.
         for element in elements:
             if element.get("UtteranceUserActionFinished"):
-                self.flow_configs[flow_id].trigger_event_types.append(
-                    "UtteranceUserActionFinished"
-                )
+                flow_config.trigger_event_types.append("UtteranceUserActionFinished")
 
             # If a flow creates a type of event, we also allow it to trigger the event.
             if (
@@ -108,7 +111,9 @@ class RuntimeV1_0(Runtime):
                 and element["action_name"] == "create_event"
             ):
                 event_type = element["action_params"]["event"]["_type"]
-                self.flow_configs[flow_id].trigger_event_types.append(event_type)
+                flow_config.trigger_event_types.append(event_type)
+
+        return flow_config
 
     def _init_flow_configs(self):
         """
@@ -218,15 +223,9 @@ class RuntimeV1_0(Runtime):
         Returns:
             List[dict]: The list of computed next steps.
         """
-        # Flows defined by `start_flow` events are part of the history: make sure this instance
-        # knows every one of them (another instance may have processed the event).
-        for event in events:
-            if event["type"] == "start_flow" and "flow_body" in event:
-                self._register_dynamic_flow(event)
-
         next_steps = compute_next_steps(
             events,
-            self.flow_configs,
+            self._get_flow_configs(events),
             rails_config=self.config,
             processing_log=processing_log,
         )
@@ -475,20 +474,44 @@ class RuntimeV1_0(Runtime):
             log.info(f"Failed to get response from {action_name} due to exception {e}")
         return result, status
 
-    def _register_dynamic_flow(self, event: dict):
-        """Parse and register the flow carried by a `start_flow` event (once per body)."""
-        flow_id = event["flow_id"]
-        body = event["flow_body"]
-        known = self.__dict__.setdefault("_dynamic_flow_bodies", {})
-        if known.get(flow_id) == body and flow_id in self.flow_configs:
-            return
-        text = "define flow " + flow_id + ":\n" + indent(body, "  ")
-        parsed_data = parse_colang_file("dynamic.co", content=text)
-        assert len(parsed_data["flows"]) == 1
-        flow = parsed_data["flows"][0]
-        flow["elements"].insert(0, {"_type": "start_flow", "flow_id": flow_id})
-        self._load_flow_config(flow)
-        known[flow_id] = body
+    def _get_flow_configs(self, events: List[dict]) -> Dict[str, FlowConfig]:
+        """The flows of the configuration plus the flows defined by the `start_flow` events of
+        the given history.
+
+        A flow that arrives in a history belongs to that conversation only: it is not added to
+        the flows of the runtime (another conversation may define another flow with that id).
+        """
+        flow_configs = self.flow_configs
+        for event in events:
+            if event["type"] == "start_flow" and "flow_body" in event:
+                flow_id = event["flow_id"]
+                # As for the flows of the configuration, the first definition is kept.
+                if flow_id in flow_configs:
+                    continue
+                if flow_configs is self.flow_configs:
+                    flow_configs = dict(self.flow_configs)
+                flow_configs[flow_id] = self._parse_dynamic_flow(
+                    flow_id, event["flow_body"]
+                )
+        return flow_configs
+
+    def _parse_dynamic_flow(self, flow_id: str, body: str) -> FlowConfig:
+        """Parse the flow carried by a `start_flow` event (once per flow id and body)."""
+        parsed = self.__dict__.setdefault("_parsed_dynamic_flows", {})
+        if (flow_id, body) not in parsed:
+            # Up to this point, the body is the sequence of instructions. We need to alter it to
+            # be an actual flow definition, i.e., add `define flow xxx` and indent the body.
+            text = "define flow " + flow_id + ":\n" + indent(body, "  ")
+            parsed_data = parse_colang_file("dynamic.co", content=text)
+            assert len(parsed_data["flows"]) == 1
+            flow = parsed_data["flows"][0]
+            # To make sure that the flow will start now, we add a start_flow element at
+            # the beginning as well.
+            flow["elements"].insert(0, {"_type": "start_flow", "flow_id": flow_id})
+            if len(parsed) >= 1000:
+                parsed.clear()
+            parsed[(flow_id, body)] = self._create_flow_config(flow_id, flow)
+        return parsed[(flow_id, body)]
 
     async def _process_start_flow(
         self, events: List[dict], processing_log: List[dict]
@@ -504,10 +527,8 @@ class RuntimeV1_0(Runtime):
             List[dict]: The list of next steps.
         """
 
-        self._register_dynamic_flow(events[-1])
-
-        # And we compute the next steps. The new flow should match the current event,
-        # and start.
+        # The flow carried by the event is picked up from the history when the next steps are
+        # computed. The new flow should match the current event, and start.
 
         next_steps = await self._compute_next_steps(
             events, processing_log=processing_log
